@@ -40,6 +40,15 @@ def run(ctx):
                                   # single data sets: a user-given reference epoch (on any time scale) in 2 of 3 cases
                                   t_ref_kind=str(rng.choice(["default", "inside", "before", "far"], p=[.34, .26, .2, .2])))
         ps = pb.ps
+        if n_off == 0 and rng.random() < 0.4:
+            # a single data set whose uncertainties are quoted in another unit than its velocities (km/s with m/s errors)
+            sv = pb.dspec["surveys"][0]
+            cur = sv.get("err_unit", sv["unit"])
+            new_u = str(rng.choice([x for x in gen.VEL_UNITS if x != sv["unit"]]))
+            sv["err"] = [gen.conv(v, cur, new_u) for v in sv["err"]]
+            sv["err_unit"] = new_u
+            pb.data = gen.build_data(pb.dspec)
+            pb.lin = gen.linear_problem(pb.dspec, ps)
         if canonical:
             # re-express every prior in the canonical system: day / rad / data unit
             du = pb.du
